@@ -933,3 +933,236 @@ def r12(cx):
 
 
 RS.explanation += ' Every operator that demands a variable operand assigns it on every error-free path (R12).'
+
+
+# ---------------------------------------------------------------------------------------
+# added after seed wave 4 (C03-s8: "plain decimal" fast path in front of the evaluator)
+EVALS = ['yash_arith::eval_with_config', 'yash_arith::eval']
+NUM_FROM_TEXT = [re.compile(r'^core::num::<impl ([iu](8|16|32|64|128|size))>::(from_str_radix|from_ascii\w*)$'),
+                 re.compile(r'^<([iuf](8|16|32|64|128|size)) as core::str::traits::FromStr>::from_str$'),
+                 re.compile(r'^core::num::dec2flt::<impl core::str::traits::FromStr for f(32|64)>::from_str$')]
+NUM_TY = re.compile(r'^(?:core::num::nonzero::NonZero<)?[iuf](8|16|32|64|128|size)>?$')
+
+
+def _first_generic_arg(ty):
+    """`core::result::Result<A, B>` -> `A` (top-level comma split)."""
+    if '<' not in ty:
+        return None
+    inner = ty[ty.index('<') + 1:]
+    depth, out = 0, ''
+    for ch in inner:
+        if ch in '<([':
+            depth += 1
+        elif ch in '>)]':
+            if depth == 0:
+                break
+            depth -= 1
+        elif ch == ',' and depth == 0:
+            break
+        out += ch
+    return out.strip() or None
+
+
+def _error_blocks(body):
+    """Blocks on which the function is about to return an error: the `?` residual conversion and explicit `Err(..)`."""
+    errs = {blk for blk, t in body.calls() if Q.callee_is(t, Q.FROM_RESIDUAL)}
+    errs |= {blk for blk, j, st in body.stmts() if st['k'] == 'assign' and st['rv']['k'] == 'agg'
+             and str(st['rv'].get('adt', '')).endswith('result::Result') and st['rv'].get('variant') in (1, 'Err')}
+    return errs
+
+
+class _Glue:
+    """The functions outside yash-arith that hand an expression to the evaluator ("feeders"), and which functions of their
+    source files deliver an evaluator result on every error-free path ("all-pass")."""
+
+    def __init__(self, F):
+        self.F = F
+        self.direct = {}          # root -> [(body, block, term)] calls of eval / eval_with_config outside yash-arith
+        for b, blk, t in F.callers_of(lambda names, t: any(n in EVALS for n in names)):
+            if b.crate == 'yash_arith':
+                continue
+            self.direct.setdefault(b.root, []).append((b, blk, t))
+        self.files = {F.body(r).file for r in self.direct}
+        if ARITH_EXPAND in F.bodies:
+            self.files.add(F.body(ARITH_EXPAND).file)
+        self.candidates = {r for r, bs in F.by_root.items() if bs[0].crate != 'yash_arith' and bs[0].file in self.files}
+        self.memo = {}
+
+    def closure_evaluates(self, fn, depth=3):
+        cb = self.F.bodies.get(fn or '')
+        if cb is None or depth == 0:
+            return False
+        if Q.find_calls(cb, EVALS):
+            return True
+        return any(st['k'] == 'assign' and st['rv']['k'] == 'agg' and st['rv'].get('ak') == 'closure'
+                   and self.closure_evaluates(st['rv'].get('def'), depth - 1) for _, _, st in cb.stmts())
+
+    def through(self, body):
+        """Blocks of `body` at which an evaluation is (started to be) performed: a call of the evaluator, a call of an
+        all-pass function of the glue files, the creation of a closure that calls the evaluator."""
+        out = {}
+        for blk, t in body.calls():
+            if Q.callee_is(t, EVALS):
+                out[blk] = t
+                continue
+            d = t['f'].get('def')
+            if d and d in self.candidates and d != body.root and self.witness(d) is None:
+                out[blk] = t
+        for blk, j, st in body.stmts():
+            if st['k'] == 'assign' and st['rv']['k'] == 'agg' and st['rv'].get('ak') == 'closure' and \
+                    self.closure_evaluates(st['rv'].get('def')):
+                out.setdefault(blk, None)
+        return out
+
+    def witness(self, root):
+        """None when every path of `root` that returns without an error passes an evaluation; else a witness path."""
+        if root in self.memo:
+            return self.memo[root]
+        self.memo[root] = [0]                 # recursion: a cycle does not evaluate by itself
+        body = self.F.main_body(root)
+        thr = set(self.through(body))
+        if 0 in thr:
+            p = None
+        else:
+            p = body.shortest_path(0, set(body.return_blocks()), removed=thr | _error_blocks(body))
+        self.memo[root] = p
+        return p
+
+
+@RS.rule('C03.R13', 'K-PASS', 'the value of $((...)) is the evaluator\'s: in arith::expand (and in every function that hands an expression to '
+         'yash_arith) each path that returns without an error passes yash_arith::eval(_with_config), the returned phrase derives from '
+         'its result, and no yash_arith Value is made from anything else - no fast path (plain number, empty text, single name) in front '
+         'of or behind the evaluator')
+def r13(cx):
+    F = cx.F
+    sig = F.fns.get(EVALS[0]) or F.fns.get(EVALS[1])
+    cx.require(sig is not None, 'yash_arith::eval_with_config / eval not found')
+    out_ty = sig['output']
+    cx.require('result::Result<' in out_ty, 'the evaluator no longer returns a Result: %s' % out_ty)
+    value_ty = _first_generic_arg(out_ty)
+    cx.require(value_ty and value_ty in F.adts, 'value type of the evaluator not found (%s)' % value_ty)
+    value_re = re.compile(r'(?<![\w:])' + re.escape(value_ty) + r'(?![\w:])')
+    G = _Glue(F)
+    cx.require(G.direct, 'no caller of yash_arith::eval(_with_config) outside yash-arith')
+    main = F.main_body(ARITH_EXPAND)
+
+    # (a) every error-free path evaluates
+    for root in sorted(set(G.direct) | {ARITH_EXPAND}):
+        body = F.main_body(root)
+        cx.fn(body.fn)
+        thr = G.through(body)
+        p = G.witness(root)
+        cx.site('%s: evaluation sites %s; every error-free path passes one: %s'
+                % (root, sorted({body.loc(t) if t else 'closure' for t in thr.values()}) or 'NONE', p is None))
+        if p is not None:
+            cx.violation(root, 'result-without-evaluator', 'a path returns a result without an error and without calling yash_arith::eval: '
+                         'whatever text takes that path is not read by the evaluator\'s tokenizer and constant parser (a "plain decimal" '
+                         'shortcut using str::parse reads `-010` / `+017` as decimal where $((x)) with x=-010 gives -8; a shortcut for an '
+                         'empty text or a single name skips unset-variable and syntax errors)', loc=body.loc(body.term(p[-2] if len(p) > 1 else p[-1])),
+                         path=Q.render_path(body, p))
+
+    # (b) what arith::expand returns without an error is data-dependent on an evaluation result
+    thr = G.through(main)
+    seeds = {t['dest']['l'] for t in thr.values() if t is not None}
+    taint = Q.forward_taint(main, seeds) if seeds else set()
+    errs = _error_blocks(main)
+    n_ret = 0
+    for blk in Q.return_writers(main):
+        if blk in errs:
+            continue
+        n_ret += 1
+        ok = False
+        for st in main.blocks[blk]['s']:
+            if st['k'] == 'assign' and st['lhs']['l'] == 0 and any(p['l'] in taint for p in Q.rvalue_places(st['rv'])):
+                ok = True
+        t = main.term(blk)
+        if t['k'] == 'call' and t['dest']['l'] == 0 and any(Q.operand_local(a) in taint for a in t['a']):
+            ok = True
+        cx.site('%s: success result written at %s derives from the evaluation: %s' % (ARITH_EXPAND, main.loc(t), ok))
+        if not ok:
+            cx.violation(ARITH_EXPAND, 'result-not-derived-from-evaluation', 'the phrase returned on success is not computed from the value '
+                         'returned by yash_arith::eval: the expansion prints something else than the C value of the expression',
+                         loc=main.loc(t))
+    if not n_ret:
+        cx.violation(ARITH_EXPAND, 'result-not-derived-from-evaluation', 'arith::expand has no success result', loc=main.loc(main.d))
+
+    # (c) in the glue files, a value of the evaluator's Value type only ever comes from an evaluation (or from the function's inputs)
+    n_defs = 0
+    for root in sorted(G.candidates):
+        ok_callees = None
+        for body in F.logical(root):
+            typed = {l for l, d in enumerate(body.locals) if value_re.search(d.get('ty') or '')}
+            if not typed:
+                continue
+            if ok_callees is None:
+                ok_callees = True
+            cx.fn(body.fn)
+            # inputs of the function that already hold a Value (a parameter, a captured variable read out of the closure /
+            # coroutine state) are as good as an evaluation result; other inputs (the expression text!) are not
+            args = set(range(1, body.argc + 1))
+            seeds = {l for l in args if l in typed}
+            seeds |= {st['lhs']['l'] for _, _, st in body.stmts() if st['k'] == 'assign' and st['lhs']['l'] in typed
+                      and st['rv']['k'] in ('use', 'ref') and any(p['l'] in args for p in Q.rvalue_places(st['rv']))}
+            thr = G.through(body)
+            seeds |= {t['dest']['l'] for t in thr.values() if t is not None}
+            taint = Q.forward_taint(body, seeds)
+            bad = []
+            for blk, j, st in body.stmts():
+                if st['k'] == 'assign' and st['lhs']['l'] in typed and not st['lhs'].get('p'):
+                    n_defs += 1
+                    if not any(p['l'] in taint for p in Q.rvalue_places(st['rv'])):
+                        bad.append(st)
+            for blk, t in body.calls():
+                if t['dest']['l'] in typed and not t['dest'].get('p'):
+                    n_defs += 1
+                    if blk not in thr and not any(Q.operand_local(a) in taint for a in t['a']):
+                        bad.append(t)
+            cx.site('%s: %d local(s) of a type holding %s; definitions not coming from an evaluation: %d'
+                    % (body.fn, len(typed), value_ty, len(bad)))
+            if bad:
+                cx.violation(body.root, 'value-made-outside-evaluator', 'a %s is made here from something that is not the result of '
+                             'yash_arith::eval: this code computes (part of) the value of an arithmetic expansion itself, with its own reading of '
+                             'numerals and none of the evaluator\'s overflow and syntax checks' % value_ty, loc=body.loc(bad[0]))
+    cx.floor(n_defs, 2, 'definitions of locals holding the evaluator\'s value type in the glue code')
+
+
+@RS.rule('C03.R14', 'K-CALLERS', 'the caller side of yash-arith (the source files of the functions that call yash_arith::eval, i.e. '
+         'expansion::initial::arith) converts no text to a number itself: every numeral of an expression or of a variable value is read '
+         'by the evaluator\'s one constant parser (R7)')
+def r14(cx):
+    F = cx.F
+    G = _Glue(F)
+    cx.require(G.direct, 'no caller of yash_arith::eval(_with_config) outside yash-arith')
+    cx.require(THE_PARSER in F.bodies, 'the constant parser %s was not found' % THE_PARSER)
+    n = 0
+    for root in sorted(G.candidates):
+        for body in F.logical(root):
+            n += 1
+            strcalls = hits = 0
+            for blk, t in body.calls():
+                names = Q.callee_names(t)
+                if any(x.startswith('core::str::') or x.startswith('alloc::str') for x in names):
+                    strcalls += 1
+                hit = any(p.search(x) for x in names for p in NUM_FROM_TEXT)
+                if not hit and Q.callee_is(t, ['core::str::<impl str>::parse']) and \
+                        NUM_TY.search((t['f'].get('rga') or t['f'].get('ga') or '').strip()):
+                    hit = True
+                if not hit and Q.callee_is(t, ['*::FromStr::from_str', re.compile(r'FromStr>::from_str$')]) and \
+                        NUM_TY.search((t['f'].get('self') or '').strip()):
+                    hit = True
+                if hit:
+                    hits += 1
+                    cx.violation(body.root, 'text-to-number-outside-the-evaluator:%s' % pp.callee(t).split('::')[-1],
+                                 'text is converted to a number here (%s [%s]), outside %s: str::parse / from_str accept a sign and '
+                                 'know no radix prefix, so a numeral taken this way (-010, +017, 0x10) denotes another value than the '
+                                 'same numeral read by the evaluator, and $(($x)) stops agreeing with $((x))'
+                                 % (pp.callee(t), t['f'].get('ga'), THE_PARSER), loc=body.loc(t))
+            cx.fn(body.fn)
+            cx.site('%s: %d call(s) scanned, %d string operation(s), text-to-number conversions: %d'
+                    % (body.fn, sum(1 for _ in body.calls()), strcalls, hits))
+    cx.floor(n, 5, 'bodies of the arithmetic-expansion glue scanned')
+
+
+RS.explanation += (' The value of an arithmetic expansion is the evaluator\'s: every error-free path of arith::expand (and of any other caller) '
+                   'passes yash_arith::eval, the returned phrase derives from its result, no Value is manufactured in the glue (R13), and the '
+                   'glue converts no text to a number itself (R14).')
